@@ -511,6 +511,48 @@ func gen(r *Rng, tier string, emit func(string)) {
 			emit("signhash " + Hex(b32(d)) + " " + h)
 		}
 	}
+	// --- crafted signatures with a tiny r: for r < p - n the recovery ids 2 and 3 name a SECOND nonce point, of abscissa
+	// r + n. Honest signatures never have such an r; every reading (recid 0..3) must recover its own key and only that one.
+	{
+		var rs []*big.Int
+		nr := 10
+		if thorough {
+			nr = 40
+		}
+		for i := 1; i <= nr; i++ {
+			rs = append(rs, big.NewInt(int64(i)))
+		}
+		rs = append(rs, add(eclib.PminusN, -2), add(eclib.PminusN, -1), eclib.PminusN, add(eclib.PminusN, 1),
+			new(big.Int).Rsh(eclib.PminusN, uint(1+r.Intn(60))), new(big.Int).SetUint64(r.U64()))
+		for _, rr := range rs {
+			ss := new(big.Int).Rsh(validScalar(r, edges), 1)
+			if ss.Sign() == 0 {
+				ss = big.NewInt(1)
+			}
+			z := new(big.Int).SetBytes(r.Bytes(32))
+			h := Hex(b32(z))
+			var keys [4][]byte
+			for v := 0; v < 4; v++ {
+				if q, ok := eclib.Recover(rr, ss, z, v); ok {
+					keys[v] = eclib.Compress(q)
+				}
+			}
+			for v := 0; v < 4; v++ {
+				sig := eclib.Sig65(rr, ss, v)
+				if v >= 2 || r.Chance(30) {
+					emit("pubfromsig " + Hex(sig) + " " + h)
+				}
+				if v >= 2 && keys[v] != nil {
+					emit("verify " + Hex(keys[v]) + " " + Hex(sig) + " " + h)
+					emit("verifyrec " + Hex(sig) + " " + h)
+				}
+				// the key of the reading that differs in bit 1 must NOT be accepted for this recovery byte
+				if v >= 2 && keys[v^2] != nil {
+					emit("verify " + Hex(keys[v^2]) + " " + Hex(sig) + " " + h)
+				}
+			}
+		}
+	}
 	emit("signhash " + Hex(make([]byte, 32)) + " " + Hex(r.Bytes(32)))
 	emit("signhash " + Hex(b32(eclib.N)) + " " + Hex(r.Bytes(32)))
 	emit("signhash " + Hex(b32(big.NewInt(1))) + " " + Hex(make([]byte, 32)))
